@@ -243,6 +243,10 @@ func mkFrame(kind string, seq int32, rid string, p protos.P, routes map[string]s
 			return f, false
 		}
 		s.Method, s.Codec, s.Body = routes["typed"], 'Q', []byte(`{"tok":"t"}`)
+	case kind == "call-panicresult":
+		// json request, so that the reply is encoded by the json codec (which calls the result's MarshalJSON)
+		s.Method, s.Codec, s.Body = routes["typed"], codec.ID_JSON, []byte(`{"tok":"t","pay":"p"}`)
+		s.Meta = meta(rid, "panicresult", "")
 	case kind == "call-bigresult":
 		if p.Name != "raw" {
 			return f, false // only raw refuses to pack a frame above the size limit
